@@ -26,7 +26,11 @@ func TestWindowedRandom(t *testing.T) {
 		if err != nil {
 			t.Fatal(err)
 		}
-		w.write(J{"ev": "Reset", "trace": k, "cfg": J{"wsize": wsize, "threshold": thr}})
+		if k%2 == 1 {
+			windowedGeneral(t, w, k, r, wsize)
+			continue
+		}
+		w.write(J{"ev": "Reset", "trace": k, "cfg": J{"wsize": wsize, "threshold": thr, "general": false}})
 		T := 1
 		nops := r.between(30, 120)
 		for i := 0; i < nops; i++ {
@@ -61,6 +65,47 @@ func TestWindowedRandom(t *testing.T) {
 			w.write(J{"ev": "Sample", "trace": k, "in": J{"t": T, "rtt": rtt, "inflight": infl, "drop": drop}, "out": out,
 				"est": wl.EstimatedLimit(), "dest": del.EstimatedLimit(), "ext": ext})
 		}
+	}
+}
+
+// windowedGeneral records one sequence on a WindowedLimit whose minimum and maximum window times differ: the period
+// of each window follows the least success RTT of the window that closed (Fold2 of spec/Windowed.tla). All times are
+// whole milliseconds.
+func windowedGeneral(t *testing.T, w *ndWriter, k int, r *rng, wsize int) {
+	const ms = int64(1e6)
+	minw := []int{100, 150}[r.intn(2)]
+	maxw := []int{minw, 300, 600}[r.intn(3)]
+	thr := []int{0, 1, 5, 40}[r.intn(4)]
+	del := &ScriptedLimit{est: r.between(1, 50), script: []int{r.between(1, 50), r.between(1, 50)}}
+	wl, err := limit.NewWindowedLimit("win", int64(minw)*ms, int64(maxw)*ms, int32(wsize), int64(thr)*ms, del, nil)
+	if err != nil {
+		t.Fatal(err)
+	}
+	w.write(J{"ev": "Reset", "trace": k, "cfg": J{"wsize": wsize, "threshold": thr, "minw": minw, "maxw": maxw, "general": true}})
+	start := 10
+	for i, nops := 0, r.between(40, 140); i < nops; i++ {
+		start += r.between(0, 90)
+		rtt := r.between(20, 220)
+		switch r.intn(8) {
+		case 0:
+			rtt = r.between(0, 6)
+		case 1:
+			rtt = r.between(250, 400)
+		}
+		infl := r.between(0, 30)
+		drop := r.chance(1, 6)
+		before := len(del.Samples)
+		wl.OnSample(int64(start)*ms, int64(rtt)*ms, infl, drop)
+		out := []J{}
+		for _, s := range del.Samples[before:] {
+			rem := int64(0)
+			if x, ok := s["rtt_ns_remainder"]; ok {
+				rem = x.(int64)
+			}
+			out = append(out, J{"rtt": s["rtt"], "rem": rem, "inflight": s["inflight"], "drop": s["drop"]})
+		}
+		w.write(J{"ev": "Sample", "trace": k, "in": J{"s": start, "rtt": rtt, "inflight": infl, "drop": drop}, "out": out,
+			"est": wl.EstimatedLimit(), "dest": del.EstimatedLimit(), "ext": false})
 	}
 }
 
